@@ -24,7 +24,7 @@ use rten_model_file::schema as sg;
 use std::io::{BufRead, Write};
 use vh_loader::*;
 
-const WATCHDOG_MS: u64 = 4000;
+const WATCHDOG_MS: u64 = 10000;
 
 // ------------------------------------------------------------------ file builders
 fn build_rten(mode: &str, dtype: &str, dims: &[u32], nelem: usize, off: u64, tdlen: usize) -> (Vec<u8>, u64, u64) {
@@ -296,7 +296,9 @@ fn exec() {
 }
 
 fn main() {
-    quiet_panics();
+    if std::env::var("VERIF_SHOW_PANIC").is_err() {
+        quiet_panics();
+    }
     let args: Vec<String> = std::env::args().collect();
     match args.get(1).map(|s| s.as_str()) {
         Some("worker") => worker(),
@@ -316,7 +318,16 @@ fn main() {
             let tier = args.get(4).map(|s| s.as_str()).unwrap_or("quick");
             let stdout = std::io::stdout();
             let mut w = std::io::BufWriter::new(stdout.lock());
-            vh_loader::gen05::generate(seed, n, tier, &mut w);
+            let skip = args.get(5).and_then(|s| s.strip_prefix("skip=")).unwrap_or("");
+            // valid files whose bytes are mutated as a whole
+            let bases = vec![
+                build_rten("ext", "f32", &[2, 3], 0, 8, 40).0,
+                build_rten("inl", "i32", &[4], 4, 0, 0).0,
+                build_rten("inl1", "u8", &[2, 2], 4, 0, 0).0,
+                build_onnx(1, &[2, 3], "raw", 24),
+                build_onnx(7, &[3], "typed", 3),
+            ];
+            vh_loader::gen05::generate(seed, n, tier, skip, &bases, &mut w);
         }
         _ => {
             eprintln!("usage: c05 gen <seed> <n> <tier> | exec | probe <spec>");
